@@ -53,4 +53,97 @@ theorem recvPrefix_embed : ∀ c : Pratt.Cst, recvPrefix (embed c) = Pratt.prefi
     simp [recvPrefixFirst, hf.1, h2, recvPrefix_embed f]
 end
 
+/-! ### tuple indices: `Pratt.digitsNat` against `parse::<usize>` -/
+
+theorem foldl_none (cs : List Char) :
+    cs.foldl (fun acc c => match acc, digitVal c with
+      | some a, some d => some (a * 10 + d)
+      | _, _ => none) none = none := by
+  induction cs with
+  | nil => rfl
+  | cons c cs ih => simpa [List.foldl] using ih
+
+theorem parseUsize_digits (ds : List Char) (i : Nat) (h : Pratt.digitsNat ds = some i) (hi : i < 2 ^ 64) :
+    parseUsize (String.ofList ds) = some i := by
+  cases ds with
+  | nil => simp [Pratt.digitsNat] at h
+  | cons c cs =>
+    have hne : c ≠ '+' := by
+      intro hc
+      subst hc
+      have : Pratt.digitsNat ('+' :: cs) = none := by
+        simp only [Pratt.digitsNat, List.foldl]
+        have : Pratt.digitVal '+' = none := by decide
+        rw [this]
+        exact foldl_none cs
+      rw [this] at h; cases h
+    have hd : Pratt.digitsNat (c :: cs) = (c :: cs).foldl (fun acc c => match acc, digitVal c with
+        | some a, some d => some (a * 10 + d)
+        | _, _ => none) (some 0) := rfl
+    rw [hd] at h
+    have ht : (String.ofList (c :: cs)).toList = c :: cs := by simp
+    unfold parseUsize
+    simp only [ht]
+    split
+    · rename_i hx
+      split at hx
+      · rename_i r heq; cases heq; exact absurd rfl hne
+      · cases hx
+    · split
+      · rename_i v hv
+        split at hv
+        · rename_i r heq; cases heq; exact absurd rfl hne
+        · have e : some i = some v := h.symm.trans hv
+          cases e; simp [hi]
+      · rename_i hv
+        split at hv
+        · rename_i r heq; cases heq; exact absurd rfl hne
+        · have e : some i = none := h.symm.trans hv
+          cases e
+
+/-- the right operand of `.`: an `Int` token that fits `usize` is a tuple index, an identifier a field name -/
+def dotOk : Pratt.Cst → Bool
+  | .int ds => match Pratt.digitsNat ds with
+    | some i => decide (i < 2 ^ 64)
+    | none => true
+  | _ => true
+
+theorem dotAccess_embed (r : Pratt.Cst) (post : Pratt.Trail) (h : Pratt.dotPost r = some post) (hok : dotOk r = true) (s : St) :
+    dotAccess (embed r) s = (some (toTr post), s) := by
+  cases r with
+  | int ds =>
+    simp only [Pratt.dotPost, Option.map_eq_some_iff] at h
+    obtain ⟨i, hi, rfl⟩ := h
+    simp only [dotOk, hi, decide_eq_true_eq] at hok
+    have ht : tokenK "Int" (eInt ds) = some (.tok "Int" (String.ofList ds) none) := by
+      simp [tokenK, eInt, Cst.kids, Cst.isNode, Cst.kind]
+    have hk : (eInt ds).kind = "EXPR_INT" := rfl
+    simp only [embed, dotAccess, hk, beq_self_eq_true, if_true, ht, Cst.tokText, parseUsize_digits ds i hi hok]
+    rfl
+  | ident x =>
+    simp only [Pratt.dotPost, Option.some.injEq] at h
+    subst h
+    simp [embed, dotAccess, eIdent, Cst.kind, child, nodesOf, Cst.kids, Cst.isNode, identTexts, tokensK, Cst.tokText,
+      toTr, M.pure]
+  | paren _ => simp [Pratt.dotPost] at h
+  | «prefix» _ _ => simp [Pratt.dotPost] at h
+  | binary _ _ _ => simp [Pratt.dotPost] at h
+  | call _ _ => simp [Pratt.dotPost] at h
+
+/-- `.`: handed down to the operand of a prefix operator when the receiver chain starts at one, applied otherwise -/
+theorem view_dot (C : List String) (n : Nat) (l r : Cst) (hl : IsE l) (hr : IsE r) (tr : List Trailing) :
+    lowerExprW C (n + 1) (eBinary .Dot l r) tr =
+      (if recvPrefix l then (dotAccess r >>= fun acc => lowerExprW C n l (acc :: tr))
+       else (lowerExprW C n l [] >>= fun lhs => dotAccess r >>= fun acc => pure (applyTrailing lhs (acc :: tr)))) := by
+  rw [lowerExprW]
+  have hk := intKindOf_none "EXPR_BINARY" (by simp)
+  have hc : childrenK exprKinds (eBinary .Dot l r) = [l, r] := by
+    simp only [eBinary, childrenK_cons_hit hl.1 hl.2, childrenK_cons_tok, childrenK_cons_hit hr.1 hr.2, childrenK_nil]
+  have ht : tokenAny binaryOpKinds (eBinary .Dot l r) = some (.tok "Dot" "." none) := by
+    simp only [eBinary, tokenAny_cons_node hl.1]
+    exact tokenAny_cons_tok_hit (by decide)
+  simp only [Cst.kind, eBinary, hk]
+  rw [show (Cst.node "EXPR_BINARY" [l, Cst.tok (tkKind .Dot) TK.Dot.spelling none, r]) = eBinary .Dot l r from rfl, hc, ht]
+  simp only [Cst.kind, beq_self_eq_true, if_true]
+
 end Goml.Lower
